@@ -140,7 +140,10 @@ func createProcess(p *Process, isMethod bool) {
 	case "err":
 		//p.Stderr.Writeln([]byte("Invalid usage of named pipes: stderr defaults to <err>."))
 	case "out":
-		p.Stderr = p.Next.Stdin
+		// stderr joins this process's stdout: the stdin of the next process
+		// when piped, otherwise the stdout of the parent. (p.Next.Stdin is
+		// only the same stream when the process is followed by a pipe.)
+		p.Stderr = p.Stdout
 	default:
 		pipe, err := GlobalPipes.Get(p.NamedPipeErr)
 		if err == nil {
